@@ -94,6 +94,8 @@ def gen_scenario(r, big=False):
             if q["ls"] >= 0 and r.random() < 0.5:
                 ts = now - r.choice([20_000_000_000, 0, 1000])
                 ops.append("w 0 %d %d %d" % (k, r.choice([2, 10, 40]), ts))
+            elif r.random() < 0.15:
+                ops.append("w 0 %d %d %d" % (k, r.choice([2, 10, 40]), r.choice([0, 1, now - 10_000_000_000, now + 5_000_000_000])))
             else:
                 ops.append("w 0 %d %d" % (k, r.choice([2, 10, 40])))
         elif x < 0.96:
